@@ -298,4 +298,52 @@ def run(args):
         else:
             if "refused" not in call or "ran" in r["out"]:
                 rep.fail(dict(feat, kind="nonconforming-argument-admitted"), {"args": args, "call": call, "out": r["out"]})
+    # ---- host boundary, outwards: what a function returns to the host is the value of its declared type, whatever that type is
+    ao = {"k": "anyobj", "fs": {"a": I(1), "b": {"k": "list", "es": [{"k": "bool", "v": True}]}}}
+    rets = [
+        ("ret_anyobj", "{ ? }", "\"{\\\"a\\\":1,\\\"b\\\":[true]}\".parse_json() as { ? }", ao),
+        ("ret_list", "[int]", "[1, 2]", {"k": "list", "es": [I(1), I(2)]}),
+        ("ret_obj", "{ a: int, b: str }", "new { a: 1, b: \"x\" }", {"k": "obj", "fs": {"a": I(1), "b": S_("x")}}),
+        ("ret_opt", "?int", "?5", {"k": "opt", "some": I(5)}),
+        ("ret_none", "?int", "none", {"k": "opt"}),
+        ("ret_str", "str", "\"s\"", S_("s")),
+        ("ret_float", "float", "1.5", {"k": "float", "f": 1.5}),
+        ("ret_bool", "bool", "true", {"k": "bool", "v": True}),
+        ("ret_range", "range", "1..4", {"k": "range", "l": 1, "r": 4}),
+        ("ret_null", "null", "null", None),
+        ("ret_listobj", "[{ ? }]", "[ret_anyobj()]", {"k": "list", "es": [ao]}),
+        ("ret_optobj", "?{ ? }", "?ret_anyobj()", {"k": "opt", "some": ao}),
+        ("ret_objobj", "{ o: { ? }, n: int }", "new { o: ret_anyobj(), n: 3 }", {"k": "obj", "fs": {"o": ao, "n": I(3)}}),
+        ("ret_nolist", "[str]", "{ let l: [str] = []; l }", {"k": "list", "es": []}),
+        ("ret_empty", "{ ? }", "\"{}\".parse_json() as { ? }", {"k": "anyobj", "fs": {}}),
+    ]
+    rlib = "".join("fn %s() -> %s { println(\"ran\"); %s }\n" % (n, t, e) for n, t, e, _ in rets) + "fn main() { }\n"
+
+    def strip(v):
+        if isinstance(v, dict):
+            out = {k: strip(x) for k, x in v.items() if k != "id"}
+            if out.get("k") in ("obj", "anyobj"):
+                out.setdefault("fs", {})        # (the worker leaves empty collections out)
+            if out.get("k") == "list":
+                out.setdefault("es", [])
+            return out
+        if isinstance(v, list):
+            return [strip(x) for x in v]
+        return v
+    res = pool.map([{"op": "run", "id": i, "a": {"modules": {"main": rlib}, "entry": "main", "backend": "vm",
+                                                 "invoke": [{"fn": n, "args": []}, {"fn": n, "args": []}]}} for i, (n, t, e, w) in enumerate(rets)], timeout=30)
+    for (n, t, e, w), rr in zip(rets, res):
+        rep.count()
+        rep.nontrivial(("host-return", n))
+        feat = {"family": "host-return", "type": t}
+        if "r" not in rr:
+            rep.fail(dict(feat, kind="hostcrash" if "crash" in rr else "hang"), {"fn": n, "real": str(rr)[:1500]})
+            continue
+        r = rr["r"]
+        if not r["accepted"]:
+            raise C.Machinery("the host-return library is not accepted: %s" % str([d["msg"] for d in r["diags"] if d["level"] == "Error"])[:300])
+        for call in r["calls"]:
+            if strip(call.get("ret")) != w or (call.get("outcome") or {}).get("kind") != "done":
+                rep.fail(dict(feat, kind="wrong-value-returned-to-host"), {"fn": n, "declared": t, "body": e, "want": w, "call": call})
+                break
     return rep.finish()
